@@ -231,6 +231,29 @@ def subs_cases(tier):
                 present = _free(prod, leaves)
                 for X in _subsets(present):
                     out.append(("subs", leaves, ["sum", prod, X] if X else prod))
+    # substitutions ONTO one of the leaf's own names: a diagonal renaming x[a,c](a='c'), and an index substitution whose
+    # index tensor is indexed by the leaf's other input, x[a,b](a=idx[b]) (any contents: the pair (idx[b], b) is injective).
+    # The adjoint must keep both inputs: the cotangent on the diagonal / at [a == idx[b]], the semiring zero elsewhere.
+    own = []
+    for x, y in (("a", "c"), ("c", "a")):
+        own.append(((x, y) if x < y else (y, x), ["ren", 1, x, y]))
+    for names in (("a", "b"), ("a", "c"), ("b", "c")):
+        for x, y in (names, names[::-1]):
+            menus = {2: ([1, 0], [0, 0]), 3: ([2, 0], [1, 1])} if SIZES[y] == 2 else {2: ([1, 0, 1], [0, 0, 1]), 3: ([2, 0, 1], [1, 1, 0])}
+            for vals in menus[SIZES[x]]:
+                own.append((names, ["index", 1, x, y, vals]))
+    one = [(), ("a",), ("b",), ("c",), ("a", "b"), ("a", "c"), ("b", "c")]
+    two = [[("a",), ("c",)], [("b",), ("a", "c")], [("a", "b"), ("b", "c")]]
+    for names, acc in own:
+        for others in [[]] + [[o] for o in one] + two:
+            leaves = {1: _leaf(names)}
+            for q, o in enumerate(others):
+                leaves[q + 2] = _leaf(o)
+            terms = [acc] + [["leaf", q + 2] for q in range(len(others))]
+            prod = ["mul", terms] if len(terms) > 1 else acc
+            present = _free(prod, leaves)
+            for X in _subsets(present):
+                out.append(("subs", leaves, ["sum", prod, X] if X else prod))
     return out
 
 
@@ -828,7 +851,11 @@ def _check(case, seed):
         f = dict(feats, leaf_access="+".join(sorted(prof["access"])), leaf_occurrences=prof["count"],
                  subs_leaf_root_free_outside=bool(via_subs and root_free_outside),
                  zero_cell_under_plate=bool(leaves[lid]["zeros"] and feats["plate_operand_has_zero"]),
-                 cat_part_lacks_input=bool(prof["in_cat"] and any(n not in lnames for n in cat_names.get(lid, ()))))
+                 cat_part_lacks_input=bool(prof["in_cat"] and any(n not in lnames for n in cat_names.get(lid, ()))),
+                 # a renaming of the leaf onto one of its own names (a diagonal) whose cotangent is the Number 1:
+                 # the substituted occurrence is the only factor of the expression
+                 diagonal_renaming_sole_factor=bool(n_occ == 1 and any(
+                     o[0] == "ren" and str(o[1]) == lid and o[3] in lnames for _, o in adjref.occurrences(expr_tree))))
         bound_clash = any(n in lnames and n in free for r in _reductions(expr_tree) for n in r[2])
         if via_subs or bound_clash:
             if prof["count"] > 1 and len(prof["access"]) > 1 and any(n not in lnames for n in free):
@@ -889,6 +916,8 @@ def _mechanisms(f):
         out.append("unmangle-captures-free-name")
     if f["cat_part_lacks_input"]:
         out.append("cat-part-broadcast")
+    if f["diagonal_renaming_sole_factor"]:
+        out.append("scatter-number-renaming-shortcut")
     if f["optimizer"] and f["bound_name_reused"]:
         out.append("unmangle-merges-bound-names")
     if f["optimizer"] and f["plate_factor_lacks_plate_var"]:
